@@ -67,7 +67,13 @@ impl ServerState {
   /// - Global context updated
   /// - Dependency graph updated
   /// - recheck_set is the conservative estimate of moduled need to recheck
-  fn recheck(&mut self, mut error_set: ErrorSet, recheck_set: &HashSet<ModuleReference>) {
+  /// - reparsed_set is the set of modules whose syntax errors are in error_set
+  fn recheck(
+    &mut self,
+    mut error_set: ErrorSet,
+    recheck_set: &HashSet<ModuleReference>,
+    reparsed_set: &HashSet<ModuleReference>,
+  ) {
     // Type Checking (parallel)
     let parsed_modules = &self.parsed_modules;
     let global_cx = &self.global_cx;
@@ -94,7 +100,15 @@ impl ServerState {
         grouped_errors.insert(*rechecked_module, Vec::new());
       }
     }
-    for (mod_ref, mod_scoped_errors) in grouped_errors {
+    for (mod_ref, mut mod_scoped_errors) in grouped_errors {
+      // A module that is rechecked without being parsed again keeps its syntax errors.
+      if !reparsed_set.contains(&mod_ref)
+        && self.parsed_modules.contains_key(&mod_ref)
+        && let Some(old_errors) = self.errors.remove(&mod_ref)
+      {
+        mod_scoped_errors.extend(old_errors.into_iter().filter(|e| e.is_syntax_error()));
+        mod_scoped_errors.sort();
+      }
       self.errors.insert(mod_ref, mod_scoped_errors);
     }
 
@@ -140,8 +154,8 @@ impl ServerState {
       self.parsed_modules.insert(mod_ref, parsed);
     }
     self.dep_graph = DependencyGraph::new(&self.parsed_modules);
-    let recheck_set = self.dep_graph.affected_set(initial_update_set);
-    self.recheck(error_set, &recheck_set);
+    let recheck_set = self.dep_graph.affected_set(initial_update_set.clone());
+    self.recheck(error_set, &recheck_set, &initial_update_set);
   }
 
   pub fn rename_module(&mut self, renames: Vec<(ModuleReference, ModuleReference)>) {
@@ -149,8 +163,10 @@ impl ServerState {
     let recheck_set = self
       .dep_graph
       .affected_set(renames.iter().flat_map(|(a, b)| vec![*a, *b].into_iter()).collect());
+    let mut reparsed_set = HashSet::new();
     for (old_mod_ref, new_mod_ref) in renames {
       if let Some(source) = self.string_sources.remove(&old_mod_ref) {
+        reparsed_set.insert(new_mod_ref);
         self.parsed_modules.remove(&old_mod_ref).unwrap();
         let parsed = samlang_parser::parse_source_module_from_text(
           &source,
@@ -167,7 +183,7 @@ impl ServerState {
       self.checked_modules.remove(&old_mod_ref);
     }
     self.dep_graph = DependencyGraph::new(&self.parsed_modules);
-    self.recheck(error_set, &recheck_set);
+    self.recheck(error_set, &recheck_set, &reparsed_set);
   }
 
   pub fn remove(&mut self, module_references: &[ModuleReference]) {
@@ -179,7 +195,7 @@ impl ServerState {
       self.global_cx.remove(mod_ref);
     }
     self.dep_graph = DependencyGraph::new(&self.parsed_modules);
-    self.recheck(ErrorSet::new(), &recheck_set);
+    self.recheck(ErrorSet::new(), &recheck_set, &HashSet::new());
   }
 }
 
